@@ -320,6 +320,19 @@ pub fn stress_sources() -> Vec<(String, String)> {
         "polymorphic-sites".into(),
         "function getx(o) -> o.x;\nfunction setx(o, v) -> o.x <- v;\nfunction callm(o, a) -> o.m(a);\nfunction plus(a, b) -> a + b;\nfunction at(c, i) -> c[i];\nfunction put(c, i, v) -> c[i] <- v;\nlet a = object begin let x = 1; let y = 2; function m(k) -> this.x + k; end;\nlet b = object begin let y = 20; let x = 10; function m(k) -> this.y + k; end;\nlet c = object extends a begin let z = 0; let x = 100; end;\nlet d = object begin let q = 7; let r = 8; let x = 1000; function m(k) -> k; function +(o) -> 5; function get(i) -> i * 2; function set(i, v) -> this.q <- v; end;\nlet arr = array(3, 4);\nprint(\"~ ~ ~ ~\\n\", getx(a), getx(b), getx(c), getx(d));\nprint(\"~ ~ ~ ~\\n\", getx(d), getx(c), getx(b), getx(a));\nsetx(a, 5); setx(b, 50); setx(c, 500); setx(d, 5000);\nprint(\"~ ~ ~ ~\\n\", a, b, c, d);\nprint(\"~ ~ ~ ~\\n\", callm(a, 1), callm(b, 1), callm(c, 1), callm(d, 1));\nprint(\"~ ~ ~\\n\", plus(1, 2), plus(d, 2), plus(3, 4));\nprint(\"~ ~ ~\\n\", at(arr, 1), at(d, 1), at(arr, 2));\nput(arr, 0, 9); put(d, 0, 9); put(arr, 1, 8);\nprint(\"~ ~\\n\", arr, d);\nlet i = 0;\nwhile i < 6 do begin\n  let o = if i % 2 == 0 then a else b;\n  print(\"~ ~ ~;\", getx(o), callm(o, i), setx(o, i));\n  i <- i + 1\nend;\nprint(\"\\n~ ~\\n\", a, b);\n".into(),
     ));
+    // one method of more than 2^16 instructions behind a far jump; more than 2^15 constants
+    let mut m = String::from("let x = 0;\nfunction long(c) -> if c then begin\n");
+    for _ in 0..30_000 {
+        m.push_str("x <- x + 1;\n");
+    }
+    m.push_str("x end else 0 - 1;\nprint(\"~ ~ ~\\n\", long(false), long(true), long(true));\n");
+    v.push(("long-method".into(), m));
+    let mut m = String::from("let s = 0;\n");
+    for i in 0..33_000 {
+        m.push_str(&format!("s <- s + {};\n", 100_001 + i));
+    }
+    m.push_str("print(\"total ~\\n\", s);\n");
+    v.push(("constants-33000".into(), m));
     // long histories: more than 2^16 iterations, allocations, calls and prints in one run; values
     // created before the history must still be intact after it
     v.push((
